@@ -136,8 +136,8 @@ Proof.
   pose proof (save_pics_rows (t_root t) Hp []) as Hpi.
   destruct (save_xml true [] (t_root t)) as [ex mx]. destruct (save_pics [] (t_root t)) as [ep mp]. cbn [fst snd] in *.
   assert (Hx' : file_paths mx = names ex) by (apply Hx; discriminate). clear Hx.
-  set (et := match t_thumb t with Some b => [mkE sTHUMB false [] (DBytes b)] | None => [] end).
-  set (mt := match t_thumb t with Some _ => [(sTHUMBDIR, []); (sTHUMB, [])] | None => [] end).
+  set (et := match t_thumb t with Some b => [mkE sTHUMB false [] (DBytes (fst b))] | None => [] end).
+  set (mt := match t_thumb t with Some b => [(sTHUMBDIR, []); (sTHUMB, snd b)] | None => [] end).
   set (xs := filter (fun x => negb (str_eqb (fst (fst x)) sSIG)) (t_extras t)).
   set (ee := flat_map (fun x => match snd x with Some b => [mkE (fst (fst x)) false [] (DBytes b)] | None => [] end) xs).
   set (me := map (fun x => (fst (fst x), snd (fst x))) xs).
